@@ -48,22 +48,113 @@ Proof.
   intros HI Hc Hz. rewrite Hz in Hc. destruct m; vm_compute in Hc; discriminate.
 Qed.
 
-Ltac keep_notified Hwk :=
+Lemma notified_upd s t x a b c d e :
+  notified s -> (wake (thr s t) = Some WNotify -> wake x = Some WNotify) ->
+  notified (mkRW a b c (upd (thr s) t x) d e).
+Proof.
+  intros [u Hu] H. destruct (Nat.eq_dec u t) as [->|Hne].
+  - exists t. simpl. rewrite upd_same. auto.
+  - exists u. simpl. rewrite upd_other by exact Hne. exact Hu.
+Qed.
+
+Lemma windowed_upd s t x a b c d e :
+  windowed s -> (in_window (pc (thr s t)) = true -> in_window (pc x) = true) ->
+  windowed (mkRW a b c (upd (thr s) t x) d e).
+Proof.
+  intros [u Hu] H. destruct (Nat.eq_dec u t) as [->|Hne].
+  - exists t. simpl. rewrite upd_same. auto.
+  - exists u. simpl. rewrite upd_other by exact Hne. exact Hu.
+Qed.
+
+Ltac nk Hwk :=
   match goal with
-  | Hn : notified ?s |- notified _ =>
-      eapply notified_keep; [|exact Hn]; intros a Ha; simpl; upd_cases; simpl; try assumption; try congruence;
-      try (exfalso; destruct (Hwk _ _ Ha) as [Hp|Hp]; congruence)
+  | Hn : notified _ |- notified _ =>
+      apply notified_upd; [exact Hn|];
+      let Ha := fresh in intros Ha;
+      first [ exact Ha | simpl; exact Ha | exfalso; congruence
+            | exfalso; destruct (Hwk _ _ Ha); congruence ]
   end.
+Ltac wk :=
+  match goal with
+  | Hn : windowed _ |- windowed _ =>
+      apply windowed_upd; [exact Hn|];
+      let Ha := fresh in intros Ha;
+      first [ reflexivity
+            | exfalso; match goal with E : pc _ = _ |- _ => rewrite E in Ha; discriminate Ha end ]
+  end.
+
+
+(* what a step can do while ANOTHER thread owns mtx *)
+Lemma step_under_foreign_mtx s l s' u :
+  Inv s -> mtx s = Some u -> u <> actor l -> guard_label s l = true -> step s l = Some s' ->
+  st s' = st s /\ mtx s' = mtx s /\ thr s' u = thr s u /\
+  (forall h, In h (q s') -> In h (q s)) /\
+  (in_window (pc (thr s u)) = true -> q s' = q s /\ forall h, In h (q s) -> md (thr s' h) = md (thr s h)) /\
+  (notified s -> notified s') /\
+  (forall x p, in_window p = true \/ p = LkEnq -> pc (thr s' x) = p -> pc (thr s x) = p).
+Proof.
+  intros HI Hm Hne Hg Hstep.
+  pose proof (i_wake _ HI) as Hwk. pose proof (i_q _ HI) as Hq. pose proof (i_mtx1 _ HI) as Hm1.
+  assert (forall x, mtx_pc (pc (thr s x)) = true -> x = u) as Hown.
+  { intros x Hx. apply Hm1 in Hx. congruence. }
+  step_cases Hstep; simpl in Hne; thr_simp; try congruence.
+  all: try (exfalso; apply Hne; symmetry; apply Hown; rewrite E; reflexivity).
+  all: try match goal with
+    | Hm0 : mem_tid _ _ && _ = true |- _ => apply andb_true_iff in Hm0; destruct Hm0 as [Hm0 _]
+    end.
+  all: try match goal with
+    | Hm0 : mem_tid _ _ = true |- _ => apply mem_tid_In in Hm0; destruct (Hq _ Hm0) as [Hpq Hwq]
+    end.
+  all: repeat split; auto; try (apply upd_other; exact Hne).
+  all: try solve [intros; exfalso; unfold window_open in Hg; rewrite Hm in Hg;
+                  match goal with H : in_window _ = true |- _ => rewrite H in Hg end; discriminate].
+  all: try solve [intros Hn; nk Hwk].
+  all: try solve [intros x p Hp; unfold upd; destruct (Nat.eqb_spec x t); simpl; intros Hx; try exact Hx; try (match goal with e : _ = _ |- _ => rewrite e; exact Hx end); subst p; simpl in Hp; destruct Hp; discriminate].
+  all: try solve [intros h Hh; apply remove_tid_In in Hh; exact Hh].
+  all: try solve [intros h Hh; upd_cases; try reflexivity; exfalso; destruct (Hq _ Hh) as [[Hp|Hp] _]; congruence].
+Qed.
+
+Lemma subset_nil {A} (l l' : list A) : (forall h, In h l' -> In h l) -> l' <> [] -> l <> [].
+Proof. intros H Hn ->. destruct l' as [|x r]; [tauto|]. apply (H x). left. reflexivity. Qed.
+
+(* pointwise fields: split on whether the thread is the actor *)
+Ltac pw x Hx t :=
+  intros x; unfold upd; destruct (Nat.eqb_spec x t) as [->|?]; simpl; intros Hx; try discriminate Hx.
 
 Lemma NS_step s l s' :
   Inv s -> NS s -> wf_label s l = true -> guard_label s l = true -> step s l = Some s' -> NS s'.
 Proof.
   intros HI HN Hwf Hg Hstep.
-  assert (Inv s') as HI' by (eapply Inv_step; eauto).
   destruct HN as [Nmain Nif2 Nnotw Nwhile Nnotr Nenq].
-  pose proof (i_wake _ HI) as Hwk. pose proof (i_q _ HI) as Hq. pose proof (i_mtx1 _ HI) as Hm1.
-  step_cases Hstep; thr_simp.
-  all: constructor; simpl.
-  all: try solve [intros u Hu; upd_cases; try discriminate; eauto].
-  all: match goal with |- ?G => idtac "GOAL" G end.
+  pose proof (i_wake _ HI) as Hwk. pose proof (i_q _ HI) as Hq.
+  destruct (mtx s) as [u|] eqn:Hm;
+    pose proof (i_mtx1 _ HI) as Hm1; pose proof (i_mtx2 _ HI) as Hm2.
+  - destruct (Nat.eq_dec u (actor l)) as [Heq|Hne].
+    + admit.
+    + (* another thread owns mtx *)
+      destruct (step_under_foreign_mtx s l s' u HI Hm Hne Hg Hstep) as [Hst [Hmt [Hu [Hsub [Hwin [Hnot Hpcs]]]]]].
+      assert (forall x p, in_window p = true \/ p = LkEnq -> pc (thr s' x) = p -> x = u /\ pc (thr s u) = p) as Hown.
+      { intros x p Hp Hx. apply Hpcs in Hx; [|exact Hp].
+        assert (mtx s = Some x) as Hmx.
+        { apply Hm1. rewrite Hx. destruct Hp as [Hp| ->]; [apply in_window_mtx_pc; exact Hp|reflexivity]. }
+        assert (x = u) by congruence. subst x. split; [reflexivity|exact Hx]. }
+      constructor.
+      * intros Hz Hn. rewrite Hst in Hz. destruct (Nmain Hz (subset_nil _ _ Hsub Hn)) as [[w Hw]|Hnf].
+        -- left. exists w. assert (w = u).
+           { apply in_window_mtx_pc in Hw. apply Hm1 in Hw. congruence. }
+           subst w. rewrite Hu. exact Hw.
+        -- right. apply Hnot. exact Hnf.
+      * intros x Hx. destruct (Hown x UlIf2 (or_introl eq_refl) Hx) as [-> Hp].
+        destruct Hwin as [Hqq _]; [rewrite Hp; reflexivity|]. rewrite Hqq. eapply Nif2; eauto.
+      * intros x Hx. destruct (Hown x UlNotW (or_introl eq_refl) Hx) as [-> Hp].
+        destruct Hwin as [Hqq _]; [rewrite Hp; reflexivity|]. rewrite Hqq. eapply Nnotw; eauto.
+      * intros x Hx. destruct (Hown x UlWhile (or_introl eq_refl) Hx) as [-> Hp].
+        destruct Hwin as [Hqq Hmd]; [rewrite Hp; reflexivity|]. rewrite Hqq.
+        destruct (Nwhile u Hp) as [H|[[h [r [H1 H2]]]|Hnf]]; [left; exact H| |right; right; apply Hnot; exact Hnf].
+        right. left. exists h, r. split; [exact H1|]. rewrite Hmd; [exact H2|]. rewrite H1. left. reflexivity.
+      * intros x Hx. destruct (Hown x UlNotR (or_introl eq_refl) Hx) as [-> Hp].
+        destruct Hwin as [Hqq _]; [rewrite Hp; reflexivity|]. rewrite Hqq. eapply Nnotr; eauto.
+      * intros x Hx. destruct (Hown x LkEnq (or_intror eq_refl) Hx) as [-> Hp].
+        rewrite Hst. destruct (Nenq u Hp) as [H|H]; [left; exact H|right; apply Hnot; exact H].
+  - admit.
 Abort.
